@@ -22,15 +22,21 @@ impl BiAtomicU32 {
         F2: Fn(u32) -> u32,
     {
         loop {
+            #[cfg(feature = "verif_hooks")]
+            crate::verif_hooks::sched_point("cas_load", 0);
             let old_num = self.inner.load(Ordering::SeqCst);
             let (old_num1, old_num2) = Self::split_to_two_num(old_num);
             let new_num1 = num1_func(old_num1);
             let new_num2 = num2_func(old_num2);
             let new_num = Self::combine_two_num(new_num1, new_num2);
+            #[cfg(feature = "verif_hooks")]
+            crate::verif_hooks::sched_point("cas_try", 0);
             let success = self
                 .inner
                 .compare_exchange(old_num, new_num, Ordering::SeqCst, Ordering::SeqCst)
                 .is_ok();
+            #[cfg(feature = "verif_hooks")]
+            crate::verif_hooks::observe("cas_result", success as u64);
             if success {
                 return (old_num1, old_num2);
             }
